@@ -55,7 +55,7 @@ HR_RESERVED = {"False", "True", "xor", "bv2nat", "bvcomp", "ROR", "ROL", "ZEXT",
 NAME_POOL_SIMPLE = ["x", "y", "z", "p", "q", "r", "v0", "w_1", "foo", "Bar", "a.b", "?v", "$t", "@c", "k!1", "x-y", "e^2",
                     "~n", "&r", "t%", "<w>", "_u", "A1", "zz9"]
 NAME_POOL_QUOTED = ["a b", "x y z", "1x", "9", "a;b", "a\"b", "(p)", "a,b", "#q", ":k", "a[0]", "{c}", "tab\there",
-                    "new\nline", "x'", "é", "let x", "0a", "-", "a(b", ")"]
+                    "new\nline", "x'", "é", "let x", "0a", "-", "a(b", "b)"]
 NAME_POOL_DEF = [".def_0", ".def_1", ".def_2", ".def_10", ".def", ".def_", "__x0", "__a1"]
 NAME_POOL_ESC = ["a|b", "back\\slash", "|", "\\"]
 
@@ -202,6 +202,49 @@ def unfold_array_values(mgr, f):
     return memo[id(f)]
 
 
+def match_unfolded(f, g):
+    """g is f except that constant-array literals of f are chains of stores over the constant array in g
+    (any order of the stores: the assigned indices are distinct constants)"""
+    memo = {}
+
+    def go(a, b):
+        key = (id(a), id(b))
+        if key in memo:
+            return memo[key]
+        memo[key] = True            # DAG, no cycles
+        res = cmp(a, b)
+        memo[key] = res
+        return res
+
+    def cmp(a, b):
+        if a is b and not _has(a, op.ARRAY_VALUE):
+            return True
+        if a.node_type() == op.ARRAY_VALUE:
+            pairs = []
+            while b.node_type() == op.ARRAY_STORE:
+                pairs.append((b.arg(1), b.arg(2)))
+                b = b.arg(0)
+            if b.node_type() != op.ARRAY_VALUE or len(b.args()) != 1:
+                return False
+            if b.array_value_index_type() != a.array_value_index_type() or not go(a.array_value_default(), b.arg(0)):
+                return False
+            want = list(zip(a.args()[1::2], a.args()[2::2]))
+            if len(want) != len(pairs):
+                return False
+            for k, v in want:
+                hit = [i for i, (k2, v2) in enumerate(pairs) if go(k, k2) and go(v, v2)]
+                if not hit:
+                    return False
+                pairs.pop(hit[0])
+            return True
+        if a.node_type() != b.node_type() or len(a.args()) != len(b.args()):
+            return False
+        if a._content.payload != b._content.payload:
+            return False
+        return all(go(x, y) for x, y in zip(a.args(), b.args()))
+    return go(f, g)
+
+
 def declarations(env, formulas, extra_syms=()):
     """text declaring the sorts and symbols of the formulas, written by pySMT's own command serialiser"""
     syms, seen = [], set()
@@ -242,7 +285,7 @@ def parse_term(env, decls, text):
         with warnings.catch_warnings():
             warnings.simplefilter("ignore")
             parser.get_script(io.StringIO(decls))
-            tokens = Tokenizer(io.StringIO(text), interactive=False)
+            tokens = Tokenizer(io.StringIO(text + "\n"), interactive=False)
             res = parser.get_expression(tokens)
             try:
                 extra = tokens.consume_maybe()
@@ -270,7 +313,7 @@ def first_difference(a, b):
             return a, b
         nxt = None
         for x, y in zip(a.args(), b.args()):
-            if x is not y:
+            if x is not y and not (x.node_type() == op.ARRAY_VALUE and match_unfolded(x, y)):
                 nxt = (x, y)
                 break
         if nxt is None:
@@ -304,11 +347,7 @@ def run_smt_roundtrip(ctx, n):
         f = fg.gen(ty, ctx.rng.choice([1, 2, 3, 4]))
         if any(x.node_type() in (op.POW, op.ALGEBRAIC_CONSTANT) for x in _nodes(f)):
             continue
-        try:
-            expected = unfold_array_values(mgr, f)
-        except PysmtException as e:
-            ctx.infra("unfold_array_values failed: %r on %s" % (e, semantic.readable(f)))
-            continue
+        has_av = _has(f, op.ARRAY_VALUE)
         decls = declarations(env, [f], extra_syms=[v for v in uni.qvars])
         for dag in (False, True):
             pname = "dag" if dag else "tree"
@@ -329,8 +368,8 @@ def run_smt_roundtrip(ctx, n):
                              "parse(print(f)) raised %s: %s" % (res[1], res[2]), rep)
                 continue
             g = res[1]
-            if g is not expected:
-                shape, a, b = classify_smt(expected, g)
+            if (g is not f) if not has_av else (not match_unfolded(f, g)):
+                shape, a, b = classify_smt(f, g)
                 ctx.report_s({"oracle": "roundtrip", "printer": pname, "kind": "different-object", "shape": shape},
                              "parse(print(f)) is not f: sub-term %s came back as %s" % (semantic.readable(a, 120),
                                                                                      semantic.readable(b, 120)),
@@ -516,7 +555,7 @@ def same_arg(env, a, b):
     """equivalence of two command arguments of the same environment"""
     from pysmt.fnode import FNode
     if isinstance(a, FNode) and isinstance(b, FNode):
-        return a is b
+        return a is b or (_has(a, op.ARRAY_VALUE) and match_unfolded(a, b))
     if isinstance(a, (list, tuple)) and isinstance(b, (list, tuple)):
         return len(a) == len(b) and all(same_arg(env, x, y) for x, y in zip(a, b))
     return a == b
@@ -535,7 +574,7 @@ def compare_commands(env, c1, c2):
         if any(x.symbol_type() != y.symbol_type() for x, y in zip(f1, f2)):
             return "define-fun %s: sorts of the parameters differ" % n1
         b2r = env.substituter.substitute(b2, dict(zip(f2, f1))) if f1 else b2
-        if b2r is not b1:
+        if b2r is not b1 and not (_has(b1, op.ARRAY_VALUE) and match_unfolded(b1, b2r)):
             return "define-fun %s: body %s became %s" % (n1, semantic.readable(b1, 150), semantic.readable(b2r, 150))
         return None
     if len(c1.args) != len(c2.args):
@@ -605,8 +644,6 @@ def run_script_roundtrip(ctx, n):
                 break
             bad = None
             for x, y in zip(a, b):
-                if stage == "constructed":
-                    x = _unfold_cmd(env, x)
                 d = compare_commands(env, x, y)
                 if d:
                     bad = (x.name, d)
